@@ -14,7 +14,7 @@ VARIABLES l
 tvars == <<vars, l>>
 
 Mark(n) == TLCSet(42, IF TLCGet(42) > n THEN TLCGet(42) ELSE n)
-IsEvent(e) == l <= Len(Trace) /\ Trace[l].ev = e /\ l' = l + 1 /\ Mark(l + 1)
+IsEvent(e) == l <= Len(Trace) /\ Trace[l].ev = e /\ l' = l + 1
 
 TInit == /\ w = Baseline /\ o = [gc |-> FALSE, cr |-> FALSE, now |-> "set", entry |-> "raw"]
          /\ pc = 1 /\ verdict = "idle" /\ fetches = <<>> /\ dp = 1 /\ l = 1 /\ TLCSet(42, 1)
@@ -37,7 +37,8 @@ TFetch == /\ IsEvent("Fetch")
 TReturn == /\ IsEvent("Return") /\ verdict = Trace[l].verdict /\ verdict \in {"accept", "reject"}
            /\ verdict' = "returned" /\ UNCHANGED <<w, o, pc, fetches, dp>>
 
-TNext == TCall \/ Silent \/ TFetch \/ TReturn
+\* the high-water mark is advanced only by a step that satisfied every conjunct of its action
+TNext == (TCall \/ Silent \/ TFetch \/ TReturn) /\ Mark(l')
 TSpec == TInit /\ [][TNext]_tvars
 
 TraceAccepted == PrintT(<<"HWM", TLCGet(42)>>) /\ TLCGet(42) = Len(Trace) + 1
